@@ -65,7 +65,8 @@ func CreateEmsgAhead(segStart, segEnd, timescale uint64, perMinute int) (*mp4.Em
 	}
 	emsgID := spliceTime / timescale
 	p := SpliceInsertParams{
-		PtsTime:                    uint64(spliceTime*90000/timescale) % (1 << 33),
+		// whole seconds and the rest separately: spliceTime x 90000 overflows 64 bits for large timescales
+		PtsTime:                    uint64(spliceTime/timescale*90000+spliceTime%timescale*90000/timescale) % (1 << 33),
 		Duration:                   uint64(adDuration * 90000 / timescale),
 		SpliceEventID:              uint32(emsgID),
 		Tier:                       4095,
